@@ -4,6 +4,7 @@ import io
 import logging
 import os
 import shutil
+import tempfile
 import typing
 
 from hpotk.ontology import MinimalOntology, Ontology
@@ -290,10 +291,19 @@ class OntologyStore:
         if not os.path.isfile(fpath_ontology):
             fdir_ontology = os.path.dirname(fpath_ontology)
             os.makedirs(fdir_ontology, exist_ok=True)
-            with self._remote_ontology_service.fetch_ontology(
-                ontology_type, release
-            ) as response, open(fpath_ontology, "wb") as fh_ontology:
-                fh_ontology.write(response.read())
+            # Write into a temporary file and move it to the final location only if complete,
+            # so that a failure never leaves an incomplete file at `fpath_ontology`.
+            fd, fpath_tmp = tempfile.mkstemp(dir=fdir_ontology, suffix=".tmp")
+            try:
+                with self._remote_ontology_service.fetch_ontology(
+                    ontology_type, release
+                ) as response, os.fdopen(fd, "wb") as fh_ontology:
+                    fh_ontology.write(response.read())
+                os.replace(fpath_tmp, fpath_ontology)
+            except BaseException:
+                if os.path.lexists(fpath_tmp):
+                    os.remove(fpath_tmp)
+                raise
 
             self._logger.debug("Stored the ontology at %s", fpath_ontology)
 
